@@ -107,9 +107,9 @@ func cmdVerify(args []string) int {
 	E.tier = *tier
 	E.verbose = *verbose
 	E.keepScripts = *keep
-	E.timeoutS = 8
+	E.timeoutS = 20
 	if *tier == "thorough" {
-		E.timeoutS = 60
+		E.timeoutS = 90
 	}
 	rep.E = E
 	for _, c := range cfg.Contracts {
